@@ -35,6 +35,16 @@ type Step struct {
 	Mod string `json:"mod,omitempty"`
 }
 
+// ConcSpec describes the concurrent part of a scenario: several clients issue
+// management calls (kind "manage") or Shutdown (kind "shutdown") at the same time. The
+// first invocation of Park's start (manage) or stop (shutdown) routine is a barrier.
+type ConcSpec struct {
+	Kind      string   `json:"kind"`
+	Park      string   `json:"park"`
+	ParkPhase string   `json:"park_phase"`
+	Clients   [][]Step `json:"clients"`
+}
+
 // Scenario is one complete module-system life: Register…, Start, script, Shutdown.
 type Scenario struct {
 	ID          int       `json:"id"`
@@ -43,8 +53,9 @@ type Scenario struct {
 	Delays      string    `json:"delays"`
 	Mods        []ModSpec `json:"mods"` // in registration order
 	Mgmt        bool      `json:"mgmt"`
-	Notify      bool      `json:"notify,omitempty"`        // register a change-notify function
-	NilMid      string    `json:"nil_mid,omitempty"`       // module without stop function placed inside a dependency path
+	Notify      bool      `json:"notify,omitempty"`  // register a change-notify function
+	NilMid      string    `json:"nil_mid,omitempty"` // module without stop function placed inside a dependency path
+	Conc        *ConcSpec `json:"conc,omitempty"`
 	HookDelayUs int       `json:"hook_delay_us,omitempty"` // delay at modules.ctrlfn.done after a start routine returned
 	InitEnable  []string  `json:"init_enable,omitempty"`
 	Steps       []Step    `json:"steps,omitempty"`
@@ -207,6 +218,15 @@ func genScenario(seed uint64, tier string, id int) Scenario {
 	// the first len(families)*len(failPhases) cases enumerate family × failure phase, the
 	// rest draw both at random: every combination is reached by construction.
 	grid := len(families) * len(failPhases)
+	if id >= 2*grid {
+		// two of every ten further cases have several clients calling concurrently
+		switch id % 10 {
+		case 3:
+			return genConcScenario(r, maxN, id, "shutdown")
+		case 7:
+			return genConcScenario(r, maxN, id, "manage")
+		}
+	}
 	if id < 2*grid {
 		sc.Family = families[id%len(families)]
 		sc.FailPhase = failPhases[(id/len(families))%len(failPhases)]
@@ -353,6 +373,130 @@ func genScenario(seed uint64, tier string, id int) Scenario {
 	return sc
 }
 
+// genConcScenario builds a life in which 2-3 clients call ManageModules (each after
+// Enable/Disable of modules only it touches) or Shutdown at the same time. Nothing
+// fails and every module has all three callbacks; one callback is the barrier that
+// keeps client 0's pass / shutdown in progress while the others issue their calls.
+func genConcScenario(r *vlib.Rand, maxN, id int, kind string) Scenario {
+	sc := Scenario{ID: id, FailPhase: "none", Delays: "conc"}
+	var deps [][]int
+	for {
+		sc.Family = vlib.Pick(r, "chain", "fanin", "fanout", "diamond", "layered", "forest", "random")
+		deps = genGraph(r, sc.Family, maxN)
+		if len(deps) >= 3 {
+			break
+		}
+	}
+	n := len(deps)
+	above := func(root int) map[int]bool { // root and everything that depends on it
+		up := map[int]bool{root: true}
+		for i := root + 1; i < n; i++ {
+			for _, d := range deps[i] {
+				if up[d] {
+					up[i] = true
+				}
+			}
+		}
+		return up
+	}
+	closure := func(set map[int]bool) map[int]bool { // set plus transitive dependencies
+		w := map[int]bool{}
+		for i := n - 1; i >= 0; i-- {
+			if set[i] || w[i] {
+				w[i] = true
+				for _, d := range deps[i] {
+					w[d] = true
+				}
+			}
+		}
+		return w
+	}
+	mods := make([]ModSpec, n)
+	for i := 0; i < n; i++ {
+		ms := ModSpec{Name: modName(i)}
+		for _, d := range deps[i] {
+			ms.Deps = append(ms.Deps, modName(d))
+		}
+		ms.Prep = Behav{DelayUs: r.Range(0, 300)}
+		ms.Start = Behav{DelayUs: r.Range(0, 2500)}
+		ms.Stop = Behav{DelayUs: r.Range(0, 3000)}
+		mods[i] = ms
+	}
+	nClients := r.Range(2, 3)
+	conc := &ConcSpec{Kind: kind, Clients: make([][]Step, nClients)}
+	if kind == "shutdown" {
+		hasRev := make([]bool, n)
+		for i := range deps {
+			for _, d := range deps[i] {
+				hasRev[d] = true
+			}
+		}
+		var tops []int
+		for i := 0; i < n; i++ {
+			if !hasRev[i] {
+				tops = append(tops, i)
+			}
+		}
+		conc.Park, conc.ParkPhase = modName(tops[r.Intn(len(tops))]), "stop"
+		for c := range conc.Clients {
+			conc.Clients[c] = []Step{{Op: "shutdown"}}
+		}
+	} else {
+		sc.Mgmt = true
+		sc.Notify = r.Bool()
+		park := r.Intn(n)
+		conc.Park, conc.ParkPhase = modName(park), "start"
+		excl := above(park)
+		init := map[int]bool{}
+		for i := 0; i < n; i++ {
+			if !excl[i] && r.Chance(1, 2) {
+				init[i] = true
+				sc.InitEnable = append(sc.InitEnable, modName(i))
+			}
+		}
+		initWanted := closure(init)
+		parkWanted := closure(map[int]bool{park: true})
+		owner := make([]int, n) // every module is enabled/disabled by one client only
+		for i := range owner {
+			owner[i] = r.Intn(nClients)
+		}
+		owner[park] = 0
+		conc.Clients[0] = []Step{{Op: "enable", Mod: modName(park)}, {Op: "manage"}}
+		for c := 1; c < nClients; c++ {
+			var fresh, on, own []int
+			for i := 0; i < n; i++ {
+				if owner[i] != c {
+					continue
+				}
+				own = append(own, i)
+				switch {
+				case init[i]:
+					on = append(on, i)
+				case !initWanted[i] && !parkWanted[i]:
+					fresh = append(fresh, i)
+				}
+			}
+			var steps []Step
+			switch {
+			case len(fresh) > 0 && (len(on) == 0 || r.Chance(2, 3)):
+				steps = append(steps, Step{Op: "enable", Mod: modName(fresh[r.Intn(len(fresh))])})
+			case len(on) > 0:
+				steps = append(steps, Step{Op: "disable", Mod: modName(on[r.Intn(len(on))])})
+			}
+			steps = append(steps, Step{Op: "manage"})
+			if len(own) > 0 && r.Chance(1, 2) {
+				op := vlib.Pick(r, "enable", "disable")
+				steps = append(steps, Step{Op: op, Mod: modName(own[r.Intn(len(own))])}, Step{Op: "manage"})
+			}
+			conc.Clients[c] = steps
+		}
+	}
+	sc.Conc = conc
+	vlib.Shuffle(r, mods)
+	sc.Mods = mods
+	return sc
+}
+
 // signature identifies graph × behaviours × management script (module names are
 // positional, so equal shapes generated the same way get equal names).
 func (sc *Scenario) signature() string {
@@ -383,6 +527,14 @@ func (sc *Scenario) signature() string {
 	sb.WriteString(strings.Join(ie, ","))
 	for _, s := range sc.Steps {
 		fmt.Fprintf(&sb, ";%s:%s", s.Op, s.Mod)
+	}
+	if sc.Conc != nil {
+		fmt.Fprintf(&sb, ";conc=%s/%s", sc.Conc.Kind, sc.Conc.Park)
+		for c, steps := range sc.Conc.Clients {
+			for _, s := range steps {
+				fmt.Fprintf(&sb, ";c%d:%s:%s", c, s.Op, s.Mod)
+			}
+		}
 	}
 	return sb.String()
 }
